@@ -4,13 +4,19 @@ use std::sync::atomic::{AtomicUsize, Ordering};
 
 pub struct Counting;
 static MAX: AtomicUsize = AtomicUsize::new(0);
+static ON: AtomicUsize = AtomicUsize::new(0);
+
+#[inline]
+fn note(n: usize) { if ON.load(Ordering::Relaxed) != 0 { MAX.fetch_max(n, Ordering::Relaxed); } }
 
 unsafe impl GlobalAlloc for Counting {
-    unsafe fn alloc(&self, l: Layout) -> *mut u8 { MAX.fetch_max(l.size(), Ordering::Relaxed); System.alloc(l) }
-    unsafe fn alloc_zeroed(&self, l: Layout) -> *mut u8 { MAX.fetch_max(l.size(), Ordering::Relaxed); System.alloc_zeroed(l) }
+    unsafe fn alloc(&self, l: Layout) -> *mut u8 { note(l.size()); System.alloc(l) }
+    unsafe fn alloc_zeroed(&self, l: Layout) -> *mut u8 { note(l.size()); System.alloc_zeroed(l) }
     unsafe fn dealloc(&self, p: *mut u8, l: Layout) { System.dealloc(p, l) }
-    unsafe fn realloc(&self, p: *mut u8, l: Layout, n: usize) -> *mut u8 { MAX.fetch_max(n, Ordering::Relaxed); System.realloc(p, l, n) }
+    unsafe fn realloc(&self, p: *mut u8, l: Layout, n: usize) -> *mut u8 { note(n); System.realloc(p, l, n) }
 }
 
 pub fn reset() { MAX.store(0, Ordering::Relaxed); }
 pub fn max() -> usize { MAX.load(Ordering::Relaxed) }
+/// count only while the code under test runs
+pub fn track(on: bool) { ON.store(if on { 1 } else { 0 }, Ordering::Relaxed); }
